@@ -69,6 +69,7 @@ from vgi_rpc.rpc._types import (
 from vgi_rpc.shm import ShmSegment, is_shm_pointer_batch, maybe_write_to_shm, resolve_shm_batch
 from vgi_rpc.utils import (
     ArrowSerializableDataclass,
+    IPCError,
     IpcValidation,
     ValidatedReader,
     _is_optional_type,
@@ -544,7 +545,20 @@ def _read_request(
         request_shm = owned_shm = attach_shm(custom_metadata)
     try:
         if request_shm is not None:
-            batch, _, release_shm = resolve_shm_batch(batch, custom_metadata, request_shm)
+            try:
+                batch, _, release_shm = resolve_shm_batch(batch, custom_metadata, request_shm)
+            except (pa.ArrowInvalid, pa.ArrowIOError, StopIteration) as exc:
+                # The request stream itself was well framed and is fully
+                # consumed; an undecodable or empty region is a bad request,
+                # not a broken connection (nothing here touches the transport,
+                # and a StopIteration escaping would read as "client closed").
+                raise IPCError(f"Shared-memory request payload could not be decoded: {exc!r}") from exc
+            if release_shm is not None:
+                # Only the zero-row pointer batch was validated above; what
+                # the segment held is new, unchecked input (decoded against
+                # the pointer's schema on the dictionary path), and as_py()
+                # on an invalid batch can abort the process.
+                validate_batch(batch, ipc_validation)
         if len(batch.schema) > 0 and batch.num_rows != 1:
             raise RpcError(
                 "ProtocolError",
